@@ -1138,9 +1138,21 @@ impl DictZipBlobStore {
         let binding = self.huffman_decoder.borrow();
         let decoder = binding.as_ref().unwrap().clone();
 
-        // The decoder's decode method already handles the encoding format
-        // The interleaving is determined by how the data was encoded
-        decoder.decode(data, original_size)
+        // Decode with the interleaving factor the data was encoded with
+        // (encode_x2/x4/x8 split the input into streams that decode() cannot reassemble)
+        use crate::entropy::huffman::InterleavingFactor;
+        match self.config.entropy_interleaved {
+            0 | 1 => decoder.decode(data, original_size),
+            2 => decoder.decode_with_interleaving(data, original_size, InterleavingFactor::X2),
+            4 => decoder.decode_with_interleaving(data, original_size, InterleavingFactor::X4),
+            8 => decoder.decode_with_interleaving(data, original_size, InterleavingFactor::X8),
+            _ => {
+                Err(ZiporaError::Configuration {
+                    message: format!("Invalid interleaving factor: {}",
+                                   self.config.entropy_interleaved)
+                })
+            }
+        }
     }
 
     /// Decode FSE encoded data
